@@ -31,7 +31,7 @@ package json
 //@   ensures panics ==> typeis(pv, errors.DocumentError) && unbox(pv, errors.DocumentError).code == 301 && unbox(pv, errors.DocumentError).index == s.index - 1 && unbox(pv, errors.DocumentError).hasIndex && unbox(pv, errors.DocumentError).file == s.file
 
 //@ func (*scanner).found(lexType)
-//@   props C05 C06
+//@   props C05 C06 C14
 //@   requires s != nil
 //@   nopanic
 //@   modifies s.finds, s.finds[*]
@@ -46,7 +46,7 @@ package json
 //@   ensures result.code == 301 && result.index == s.index - 1 && result.hasIndex && result.file == s.file && !result.prepared
 
 //@ func (*scanner).shiftFound()
-//@   props C05 C06
+//@   props C05 C06 C14
 //@   requires s != nil && len(s.finds) >= 1
 //@   nopanic
 //@   modifies s.finds, s.finds[*]
@@ -65,7 +65,7 @@ package json
 //@   ensures result == ((lexType == lexeme.LiteralEnd || lexType == lexeme.ArrayItemEnd || lexType == lexeme.ObjectKeyEnd || lexType == lexeme.ObjectValueEnd) && pairType == partner(lexType))
 
 //@ func (*scanner).processFoundLexemeClosingTag(lexType, i)
-//@   props C05 C06
+//@   props C05 C06 C14
 //@   requires s != nil && s.stack != nil && stkDepth(s) >= 1 && isCloseKind(lexType) && partner(lexType) == stkTop(s)
 //@   requires i >= 1 || lexType == lexeme.ObjectEnd || lexType == lexeme.ArrayEnd
 //@   nopanic
@@ -75,7 +75,7 @@ package json
 //@   ensures len(s.stack.vals) == old(len(s.stack.vals)) - 1 && s.stack.vals.$arr == old(s.stack.vals.$arr) && s.stack.vals.$off == old(s.stack.vals.$off)
 
 //@ func (*scanner).processingFoundLexeme(lexType)
-//@   props C05 C06
+//@   props C05 C06 C14
 //@   requires evtOK(s, lexType)
 //@   nopanic
 //@   modifies s.stack.vals, s.stack.vals[*]
@@ -90,7 +90,7 @@ package json
 //@   ensures s.stack.vals.$arr == old(s.stack.vals.$arr) || fresh(s.stack.vals)
 
 //@ func (*scanner).Next()
-//@   props C05 C06 C07 C17
+//@   props C05 C06 C07 C14 C17
 //@   requires s != nil && s.index < 18446744073709551615
 //@   requires nextOK(s)
 //@   maypanic
@@ -168,7 +168,7 @@ package json
 //@   ensures stkDepth(d.scanner) == 0 && len(d.scanner.finds) == 0 && d.scanner.step == stateFoundRootValue
 
 //@ func (*Document).nextLexeme()
-//@   props C05 C06 C07 C17
+//@   props C05 C06 C07 C14 C17
 //@   requires d != nil && d.scanner != nil && d.scanner.index < 18446744073709551615
 //@   requires nextOK(d.scanner)
 //@   nopanic
@@ -200,142 +200,142 @@ package json
 //@   ensures err == nil && length > 0 ==> (exists P :: length <= P && P <= len(d.file.content) && (forall k :: length <= k && k < P ==> isWS(d.file.content[k])) && (P == len(d.file.content) || !isWS(d.file.content[P])))
 
 //@ func stateFoundRootValue(s, c)
-//@   props C05 C06
+//@   props C05 C06 C14
 //@   refines stepFunc
 
 //@ func stateFoundObjectKeyBeginOrEmpty(s, c)
-//@   props C05 C06
+//@   props C05 C06 C14
 //@   refines stepFunc
 
 //@ func stateFoundObjectKeyBegin(s, c)
-//@   props C05 C06
+//@   props C05 C06 C14
 //@   refines stepFunc
 
 //@ func stateFoundObjectValueBegin(s, c)
-//@   props C05 C06
+//@   props C05 C06 C14
 //@   refines stepFunc
 
 //@ func stateFoundArrayItemBeginOrEmpty(s, c)
-//@   props C05 C06
+//@   props C05 C06 C14
 //@   refines stepFunc
 
 //@ func stateFoundArrayItemBegin(s, c)
-//@   props C05 C06
+//@   props C05 C06 C14
 //@   refines stepFunc
 
 //@ func stateEndValue(s, c)
-//@   props C05 C06
+//@   props C05 C06 C14
 //@   refines stepFunc
 
 //@ func stateAfterObjectKey(s, c)
-//@   props C05 C06
+//@   props C05 C06 C14
 //@   refines stepFunc
 
 //@ func stateAfterObjectValue(s, c)
-//@   props C05 C06
+//@   props C05 C06 C14
 //@   refines stepFunc
 
 //@ func stateAfterArrayItem(s, c)
-//@   props C05 C06
+//@   props C05 C06 C14
 //@   refines stepFunc
 
 //@ func stateEndTop(s, c)
-//@   props C05 C06
+//@   props C05 C06 C14
 //@   refines stepFunc
 
 //@ func stateInString(s, c)
-//@   props C05 C06
+//@   props C05 C06 C14
 //@   refines stepFunc
 
 //@ func stateInStringEsc(s, c)
-//@   props C05 C06
+//@   props C05 C06 C14
 //@   refines stepFunc
 
 //@ func stateInStringEscU(s, c)
-//@   props C05 C06
+//@   props C05 C06 C14
 //@   refines stepFunc
 
 //@ func stateInStringEscU1(s, c)
-//@   props C05 C06
+//@   props C05 C06 C14
 //@   refines stepFunc
 
 //@ func stateInStringEscU12(s, c)
-//@   props C05 C06
+//@   props C05 C06 C14
 //@   refines stepFunc
 
 //@ func stateInStringEscU123(s, c)
-//@   props C05 C06
+//@   props C05 C06 C14
 //@   refines stepFunc
 
 //@ func stateNeg(s, c)
-//@   props C05 C06
+//@   props C05 C06 C14
 //@   refines stepFunc
 
 //@ func state1(s, c)
-//@   props C05 C06
+//@   props C05 C06 C14
 //@   refines stepFunc
 
 //@ func state0(s, c)
-//@   props C05 C06
+//@   props C05 C06 C14
 //@   refines stepFunc
 
 //@ func stateDot(s, c)
-//@   props C05 C06
+//@   props C05 C06 C14
 //@   refines stepFunc
 
 //@ func stateDot0(s, c)
-//@   props C05 C06
+//@   props C05 C06 C14
 //@   refines stepFunc
 
 //@ func stateE(s, c)
-//@   props C05 C06
+//@   props C05 C06 C14
 //@   refines stepFunc
 
 //@ func stateESign(s, c)
-//@   props C05 C06
+//@   props C05 C06 C14
 //@   refines stepFunc
 
 //@ func stateE0(s, c)
-//@   props C05 C06
+//@   props C05 C06 C14
 //@   refines stepFunc
 
 //@ func stateT(s, c)
-//@   props C05 C06
+//@   props C05 C06 C14
 //@   refines stepFunc
 
 //@ func stateTr(s, c)
-//@   props C05 C06
+//@   props C05 C06 C14
 //@   refines stepFunc
 
 //@ func stateTru(s, c)
-//@   props C05 C06
+//@   props C05 C06 C14
 //@   refines stepFunc
 
 //@ func stateF(s, c)
-//@   props C05 C06
+//@   props C05 C06 C14
 //@   refines stepFunc
 
 //@ func stateFa(s, c)
-//@   props C05 C06
+//@   props C05 C06 C14
 //@   refines stepFunc
 
 //@ func stateFal(s, c)
-//@   props C05 C06
+//@   props C05 C06 C14
 //@   refines stepFunc
 
 //@ func stateFals(s, c)
-//@   props C05 C06
+//@   props C05 C06 C14
 //@   refines stepFunc
 
 //@ func stateN(s, c)
-//@   props C05 C06
+//@   props C05 C06 C14
 //@   refines stepFunc
 
 //@ func stateNu(s, c)
-//@   props C05 C06
+//@   props C05 C06 C14
 //@   refines stepFunc
 
 //@ func stateNul(s, c)
-//@   props C05 C06
+//@   props C05 C06 C14
 //@   refines stepFunc
 
